@@ -28,7 +28,7 @@ def plan(tier, seed):
         for lo in range(0, 100000, 12500):
             specs.append({'year': y, 'mode': 'dollars', 'lo': lo, 'hi': lo + 12500})
         specs.append({'year': y, 'mode': 'quick'})
-        specs.append({'year': y, 'mode': 'above', 'n': 100000})
+        specs.append({'year': y, 'mode': 'above', 'n': 500000})
     return specs
 
 
